@@ -121,7 +121,7 @@ func newSut(cfg config) *sut {
 type loc struct{ blk, off, size int64 } // blk absolute
 
 func (l loc) olderThan(o loc) bool { return l.blk < o.blk || (l.blk == o.blk && l.off < o.off) }
-func (l loc) samePos(o loc) bool  { return l.blk == o.blk && l.off == o.off }
+func (l loc) samePos(o loc) bool   { return l.blk == o.blk && l.off == o.off }
 
 func (s *sut) get(key int) (string, *loc) {
 	l, err := s.klm.Get(keyOf(key))
@@ -466,6 +466,7 @@ func TestC06(t *testing.T) {
 		r := hx.NewRand(run.Seed, "C06", i)
 		handle(fmt.Sprintf("seed%d/case%d", run.Seed, i), genScript(r, r.Range(10, 60)))
 	}
+	codecCases(run, model, run.Scale(1500, 6000))
 	if run.Thorough() && run.Findings() == 0 {
 		exhaustive(run, or, model, handle)
 	}
